@@ -386,5 +386,18 @@ pub fn judge(property: &str, scn: &Scenario, rec: &RunRecord) -> Judgement {
         }
     }
 
+    // ---- the run must leave the process usable (C22, C23) ----
+    if rec.flag_stuck_after_start_query && (property == "C22" || property == "C23") {
+        viol.push(Violation {
+            property: property.to_string(),
+            class: "stop_flag_survives_start_query".into(),
+            op_index: scn.history.len(),
+            op: "AfterRun".into(),
+            expected: "start_query() clears the stop flag".into(),
+            observed: "the stop flag is still set after start_query(): every later query in this process is stopped before it starts".into(),
+            detail: "checked after the history, the drain and the post-check".into(),
+        });
+    }
+
     Judgement { violations: viol, counters: cnt }
 }
